@@ -18,7 +18,7 @@
 //   SOL <tag> <x1> <x2> | mu tc tk patm DH_A DH_B a_llnl b_llnl bdot_llnl COSMOT AW la_h2o mass_water gfw_water | pitzer sit nllnl
 //   SP <namehex> <type> <gflag> <in> <primary> z dha dhb a_f lm lg moles LG LM LA GAMMA
 //   R <tag> <x1> <x2>
-//   PZ <tag> <pitzer|sit> ns=<s.size()> I TK patm A0 ICON IC use_etheta mcb0 mcb1 mcc0 COSMOT AW
+//   PZ <tag> <pitzer|sit> ns=<s.size()> I TK patm A0 ICON IC use_etheta mcb0 mcb1 mcc0 COSMOT AW MIN_TOTAL
 //   PS <idx> <namehex> z lm M LGAMMA lg_pitzer
 //   PP <k> <type> i0 i1 i2 p alpha lnc0 lnc1 lnc2 osc etheta ethetap a0 a1 a2 a3 a4 a5
 //   PE <tag>
@@ -82,7 +82,7 @@ public:
       << H(e->patm_x) << " " << H(sit ? e->sit_A0 : e->A0) << " " << (e->ICON == TRUE) << " " << e->IC << " "
       << (e->use_etheta == TRUE) << " " << (e->mcb0 && !sit ? H(e->mcb0->p) : std::string("-")) << " "
       << (e->mcb1 && !sit ? H(e->mcb1->p) : std::string("-")) << " " << (e->mcc0 && !sit ? H(e->mcc0->p) : std::string("-")) << " "
-      << H(e->COSMOT) << " " << H(e->AW) << "\n";
+      << H(e->COSMOT) << " " << H(e->AW) << " " << H(e->MIN_TOTAL) << "\n";
     for (size_t j = 0; j < e->s_list.size(); j++) {
       int i = e->s_list[j];
       class species* s = e->spec[i];
@@ -105,7 +105,7 @@ public:
     bool sit = (e->sit_model == TRUE);
     if ((!sit && e->pitzer_model != TRUE) || v.empty() || e->s_list.empty()) { o << "PZ " << tag << " none\nPE " << tag << "\n"; return; }
     size_t k = 0;
-    auto next = [&]() { double d = v[k % v.size()]; k++; return d; };
+    auto next = [&]() { double d = (k < 2 || v.size() < 3) ? v[k % v.size()] : v[2 + (k - 2) % (v.size() - 2)]; k++; return d; };
     std::vector<class pitz_param*>& pp = sit ? e->sit_params : e->pitz_params;
     e->mu_x = next();
     e->tk_x = next();
